@@ -107,6 +107,13 @@ impl TxIn {
         };
 
         // Script Sig
+        let remaining = (cursor.get_ref().len() as u64).saturating_sub(cursor.position());
+        if unlocking_script_size > remaining {
+            return Err(BSVErrors::DeserialiseTxIn(
+                "unlocking_script".to_string(),
+                std::io::Error::new(std::io::ErrorKind::UnexpectedEof, "script length exceeds remaining bytes"),
+            ));
+        }
         let mut unlocking_script = vec![0; unlocking_script_size as usize];
         if let Err(e) = cursor.read(&mut unlocking_script) {
             return Err(BSVErrors::DeserialiseTxIn("unlocking_script".to_string(), e));
